@@ -460,6 +460,37 @@ def dropEscNl : List Char → List Char
   | c :: r => c :: dropEscNl r
   | [] => []
 
+/-- CSS Syntax 3 §4.3.5/§4.3.7: the value of a string token from the text between its quotes.  `\` + 1–6
+    hexadecimal digits + one optional white-space character is that code point (0, surrogates and values beyond
+    U+10FFFF: U+FFFD); `\` + newline is nothing; `\` + any other character is that character.  In particular
+    `\31` + `\`newline + `2` is "12" (the escape ends at the backslash), as is `\31 2`, while `\312` is U+312. -/
+def strValueGo : Nat → List Char → List Char
+  | 0, s => s
+  | _ + 1, [] => []
+  | fuel + 1, '\\' :: r =>
+    match r with
+    | [] => [Char.ofNat 0xFFFD]
+    | c :: r' =>
+      if isHexDigit c then
+        let hs := c :: (r'.takeWhile isHexDigit).take 5
+        let rest := r'.drop (hs.length - 1)
+        let rest := match rest with
+          | '\r' :: '\n' :: x => x
+          | w :: x => if isWs w then x else rest
+          | [] => []
+        let v := hexVal hs
+        (if v == 0 || v > 0x10FFFF || (0xD800 ≤ v && v ≤ 0xDFFF) then Char.ofNat 0xFFFD else Char.ofNat v) ::
+          strValueGo fuel rest
+      else if c == '\r' then
+        match r' with
+        | '\n' :: r'' => strValueGo fuel r''
+        | _ => strValueGo fuel r'
+      else if c == '\n' || c == Char.ofNat 12 then strValueGo fuel r'
+      else c :: strValueGo fuel r'
+  | fuel + 1, c :: r => c :: strValueGo fuel r
+
+def strValue (s : List Char) : List Char := strValueGo (s.length + 1) s
+
 
 /-! ## keywords -/
 
@@ -770,20 +801,23 @@ def ratChars (q : Rat) : List Char :=
 def colorTok (c : Color) : Tok :=
   .mk .hash ('#' :: natChars c.r ++ ',' :: natChars c.g ++ ',' :: natChars c.b ++ ',' :: ratChars c.a) []
 
-/-- drop white space next to separators and at both ends -/
-def trimArgWs : List Tok → List Tok
+def isPlusMinus (t : Tok) : Bool := t.tt == .delim && (t.data == ['+'] || t.data == ['-'])
+
+/-- white space between the component values of a function is not significant except around a `+` or `-`
+delimiter (CSS Values 4 §10.1: an operator of `calc()` needs it on *both* sides): all white space is dropped, and a
+`+`/`-` that has it on both sides is marked (`" + "`).  A minifier may thus add a space between two tokens that stood
+next to each other (`8.24E3-255` → `8240 -255`, a933f35) but not make or unmake an operator.
+`prevWs` = the previous token was white space. -/
+def trimArgWsGo (prevWs : Bool) : List Tok → List Tok
   | [] => []
   | t :: r =>
-    let r' := trimArgWs r
-    if t.tt == .whitespace then
-      match r' with
-      | [] => []
-      | n :: _ => if n.tt == .comma || isSlash n || n.tt == .whitespace then r' else t :: r'
-    else if t.tt == .comma || isSlash t then
-      match r' with
-      | n :: r'' => if n.tt == .whitespace then t :: r'' else t :: r'
-      | [] => [t]
-    else t :: r'
+    if t.tt == .whitespace then trimArgWsGo true r
+    else if isPlusMinus t && prevWs && (match r with | n :: _ => n.tt == .whitespace | [] => false) then
+      .mk .delim (' ' :: t.data ++ [' ']) [] :: trimArgWsGo false r
+    else t :: trimArgWsGo false r
+
+/-- drop the insignificant white space of a function's arguments -/
+def trimArgWs (ts : List Tok) : List Tok := trimArgWsGo false ts
 
 def dropLeadingWs : List Tok → List Tok
   | t :: r => if t.tt == .whitespace then dropLeadingWs r else t :: r
@@ -825,10 +859,8 @@ def normTok (fn : List Char) : Tok → Tok
     | .ident => match namedColor data with | some c => colorTok c | none => t
     | .whitespace => .mk .whitespace [' '] []
     | .string =>
-      -- the quote character is not significant when the content contains neither kind of quote
-      let body := dropEscNl (data.drop 1).dropLast
-      if body.contains '"' || body.contains '\'' then .mk .string (data.take 1 ++ body ++ data.take 1) []
-      else .mk .string ('"' :: body ++ ['"']) []
+      -- a string denotes its value: escapes resolved, the quote character is not significant
+      .mk .string ('"' :: strValue (data.drop 1).dropLast ++ ['"']) []
     | .url => .mk .url (urlContent data) []
     | .function =>
       match funcColor t with
@@ -1062,12 +1094,26 @@ def safeBoundary (l r : List Char) : Bool :=
    r.head? == some ',' || r.head? == some '/') &&
   !(l.getLast? == some '/' && r.head? == some '*')
 
-/-- `out` is the lexemes `ps` in order, each pair separated by one space or — at a safe boundary — by nothing -/
+def isHexRange (c : Char) : Bool := ('0' ≤ c && c ≤ '9') || ('a' ≤ c && c ≤ 'f') || ('A' ≤ c && c ≤ 'F')
+
+/-- the lexeme ends in a hexadecimal escape — an unescaped backslash and one to six hexadecimal digits (CSS Syntax 3
+§4.3.7): a single white-space character behind it belongs to the escape and separates nothing -/
+def endsHexEsc (b : List Char) : Bool :=
+  let hs := (b.reverse.takeWhile isHexRange).take 6
+  if hs.isEmpty then false else
+  match b.reverse.drop hs.length with
+  | '\\' :: r => (r.takeWhile (· == '\\')).length % 2 == 0
+  | _ => false
+
+/-- `out` is the lexemes `ps` in order, each pair separated by one space — two behind a lexeme that ends in a
+hexadecimal escape, the first of which only terminates the escape — or, at a safe boundary, by nothing -/
 inductive Joined : List (List Char) → List Char → Prop
   | nil : Joined [] []
   | single (p : List Char) : Joined [p] p
   | space (p q : List Char) (rest : List (List Char)) (out : List Char) :
-      Joined (q :: rest) out → Joined (p :: q :: rest) (p ++ ' ' :: out)
+      endsHexEsc p = false → Joined (q :: rest) out → Joined (p :: q :: rest) (p ++ ' ' :: out)
+  | space2 (p q : List Char) (rest : List (List Char)) (out : List Char) :
+      endsHexEsc p = true → Joined (q :: rest) out → Joined (p :: q :: rest) (p ++ ' ' :: ' ' :: out)
   | tight (p q : List Char) (rest : List (List Char)) (out : List Char) :
       safeBoundary p q = true → Joined (q :: rest) out → Joined (p :: q :: rest) (p ++ out)
 
@@ -1075,6 +1121,11 @@ inductive Joined : List (List Char) → List Char → Prop
 def TokShape (t : Tok) : Prop :=
   (t.tt = .comma → t.data = [',']) ∧ (t.tt = .delim → t.data.length = 1) ∧
   (t.tt = .url → t.data.getLast? = some ')') ∧ t.data ≠ []
+
+/-- lexer contract: only an identifier, a hash or a dimension ends in a hexadecimal escape (at-keywords and custom
+property names, which also can, do not occur as values of the properties the theorems speak about) -/
+def EscShape (t : Tok) : Prop :=
+  endsHexEsc t.data = true → (t.tt = .ident ∨ t.tt = .hash ∨ t.tt = .dimension)
 
 
 end Verif.Spec.CssValue
